@@ -51,6 +51,20 @@ func c11Topic(r *hx.Rng, sel string) string {
 		return sel
 	case 2: // near miss
 		t := c11Topic(r, sel)
+		if r.Chance(0.35) { // the case of one letter flipped: selectors, literal or templates, are case-sensitive
+			b := []byte(t)
+			var letters []int
+			for i, c := range b {
+				if (c >= 'a' && c <= 'z') || (c >= 'A' && c <= 'Z') {
+					letters = append(letters, i)
+				}
+			}
+			if len(letters) > 0 {
+				i := letters[r.Intn(len(letters))]
+				b[i] ^= 0x20
+				return string(b)
+			}
+		}
 		if len(t) > 0 && r.Chance(0.5) {
 			return t[:len(t)-1]
 		}
